@@ -272,13 +272,15 @@ class C12(Check):
         schema = None
         outcome = {'exc': None, 'msg': None, 'warnings': []}
         doc_path = None
+        if mech in ('hint_validate', 'hint_iter_errors'):
+            # written BEFORE the monitor is armed: the harness' own writes are not fetches
+            doc_path = world.write('base/sand/doc.xml', self.hint_doc(loc, main_first=mech == 'hint_validate'))
         self.monitor.start([root, self.pkg_schemas])
         try:
             with warnings.catch_warnings(record=True) as wlist:
                 warnings.simplefilter('always')
                 try:
                     if mech == 'hint_validate':
-                        doc_path = world.write('base/sand/doc.xml', self.hint_doc(loc, main_first=True))
                         vkw = {'allow': allow}
                         if allow == 'sandbox':
                             vkw['base_url'] = base_dir
@@ -286,7 +288,6 @@ class C12(Check):
                     else:
                         schema = cls(source, **kw)
                         if mech == 'hint_iter_errors':
-                            doc_path = world.write('base/sand/doc.xml', self.hint_doc(loc))
                             outcome['errors'] = [e.reason for e in schema.iter_errors(doc_path, use_location_hints=True)]
                 except BaseException as exc:
                     if type(exc).__name__ in ('CaseTimeout', 'KeyboardInterrupt', 'SystemExit'):
